@@ -99,6 +99,10 @@ IpGen == /\ Ev.ev = "IpGen"
          /\ idOf' = (IpFields(Ev.rec) :> Ev.rec.nid) @@ idOf
          /\ signedIp' = signedIp \cup {[f |-> IpFields(Ev.rec), sig |-> Ev.rec.sig]}
          /\ Quiet /\ UNCHANGED <<signed, sumOf, pinned, originOf, nchk>>
+(* the id of a crafted record, recomputed by the harness as an attacker would: the id matches, nobody signed the fields *)
+IpId == /\ Ev.ev = "IpId"
+        /\ idOf' = (IpFields(Ev.rec) :> Ev.rec.nid) @@ idOf
+        /\ Quiet /\ UNCHANGED <<signed, signedIp, sumOf, pinned, originOf, nchk>>
 IpVerify == /\ Ev.ev = "IpVerify"
             /\ Judge("IpNodeIdIff", IF Ev.v = 4 THEN "IPv4NodeID::verify" ELSE "IPv6NodeID::verify",
                      IpIdOk(signedIp, idOf, Ev.rec), "own_signature_" \o Origin(Ev.rec.pk))
@@ -107,7 +111,7 @@ IpVerify == /\ Ev.ev = "IpVerify"
 Panic == /\ Ev.ev = "Panic" /\ NoteAll(V("NoPanic", Ev.where, "panic")) /\ UNCHANGED model /\ UNCHANGED nchk
 
 Next == /\ l <= N /\ l' = l + 1
-        /\ (Reset \/ Key \/ Sign \/ Info \/ Verify \/ VerifyFlips \/ Auth \/ Checksum \/ Pin \/ Update \/ IpGen \/ IpVerify \/ Panic)
+        /\ (Reset \/ Key \/ Sign \/ Info \/ Verify \/ VerifyFlips \/ Auth \/ Checksum \/ Pin \/ Update \/ IpGen \/ IpId \/ IpVerify \/ Panic)
 Spec == Init /\ [][Next]_vars
 
 Report == (l = N + 1) =>
